@@ -572,6 +572,13 @@ func (sc *serverConn) writeFrame(wm frameWriteMsg) bool {
 		return false
 	}
 
+	// A frame for a stream that was closed meanwhile would be skipped by
+	// startFrameWrite anyway; do not queue it, or a DATA frame is taken from
+	// the flow-control windows without ever being sent.
+	if st := wm.stream; st != nil && st.state == stateClosed {
+		return true
+	}
+
 	sc.writeSched.add(wm)
 	sc.scheduleFrameWrite()
 	return true
